@@ -178,7 +178,7 @@ def _w_long(chunk):
     r = core.Res()
     head, L = chunk
     s = long_shape(head, L)
-    for n in (1, 2, 5, 9):
+    for n in (1, 2, 5, 9, 10, 13, 17, 20, 33, 34, 40):
         check_value(r, s, n)
     r.states += 1
     r.nontriv += 1
@@ -213,11 +213,12 @@ def run(ctx):
         total_states += len(items)
         ctx.pmap(_w_auto, [(n, c) for c in core.chunks_of(items, 300)])
     ctx.cov['vt_automaton_states'] = total_states
-    longs = [(h, L) for L in ([1000, 10000] if ctx.quick else [1000, 10000, 100000]) for h in ('ACGT', 'TGCA', 'AT', 'CAGT')]
+    # ascent sums grow like L^2/4: the lengths straddle sums of 2^16 (L ~ 512), 2^31 (L ~ 92,700) and 2^32 (L ~ 131,100)
+    longs = [(h, L) for L in ([300, 511, 513, 520, 600, 1000, 10000, 92000, 93000, 131000, 132000] if ctx.quick else [300, 511, 513, 520, 600, 1000, 10000, 92000, 93000, 100000, 131000, 132000, 300000]) for h in ('ACGT', 'TGCA', 'AT', 'CAGT', 'AC', 'ACG')]
     ctx.pmap(_w_long, longs)
     ctx.bounds = {'all_strands_up_to': Lv, 'check_lengths': list(ns), 'long_check_lengths_on_strands_up_to_5': [8, 16, 31, 32, 33, 34, 40, 64, 100], 'edits_on_strands_up_to': Le,
                   'decode_rejection_strands_up_to': 5 if ctx.quick else 6, 'automaton_check_lengths': [1, 2, 3],
-                  'long_strands': [L for _, L in longs[::4]]}
+                  'long_strands': sorted({L for _, L in longs}), 'long_strand_check_lengths': [1, 2, 5, 9, 10, 13, 17, 20, 33, 34, 40]}
     ctx.rule = ('value: one case = (strand, check length) compared with the VT definition; edit: one case = (strand, single '
                 'substitution or C/G/T indel, check length): the real check must change, and decode with the original check must '
                 'raise ValueError; automaton: every transition of the finite VT automaton (check length <= 3) replayed on set_vt '
